@@ -92,7 +92,7 @@ def build (j : Json) : Except String (Except CErr Msg) := do
   | "server_error_response" =>
     return serverErrorResponse (← getIdOpt j "id") (← j.getObjValAs? Int "code") (← getStr j "message")
   | "send_message_request" =>
-    return sendMessageRequest (← getStr j "method") (← getObjOpt j "params") (← getStrOpt j "mid")
+    return sendMessageRequest (← getStr j "method") (← getObjOpt j "params") (← getIdOpt j "mid")
       (← getStr j "fresh_id") (← getStr j "fresh_tok") (← j.getObjValAs? Bool "progress")
   | "notification" => return .ok (sendNotification (← getStr j "method") (← getObjOpt j "params"))
   | "dict_error" =>
